@@ -124,6 +124,7 @@ def run(scn: Dict[str, Any]) -> UdpRun:
                 not (h.owner == "app" and h.owner_id == ("bridge", bidx)) for h in sim.net.udp_holders(p)))
 
         out.running_samples = 0
+        out.snapshots = []
         out.running_but_not_listening = []
 
         in_stop = [False]
@@ -151,6 +152,11 @@ def run(scn: Dict[str, Any]) -> UdpRun:
                 await asyncio.sleep(st["gap"])
             if kind == "sleep":
                 await asyncio.sleep(st["s"])
+                if st["s"] >= 0.01:
+                    # a quiet moment: what every bridge says about itself and what it really holds
+                    await settle()
+                    out.snapshots.append({"seq": sim.seq, "state": [
+                        {"running": bool(ob.is_running), "held": held_ports(k)} for k, ob in enumerate(bridges)]})
                 return
             if kind == "wall_jump":
                 sim.wall_jump(st["s"])
@@ -167,7 +173,7 @@ def run(scn: Dict[str, Any]) -> UdpRun:
                 for i, d in enumerate(copies):
                     if i:
                         sim.fire("udp_dup")
-                    sim.net.udp_send(st["port"], payload, st["tag"], d)
+                    sim.net.udp_send(st["port"], payload, st["tag"], d, tuple(st["src"]) if st.get("src") else ("192.168.1.50", 20002))
                 if st.get("delay", 0) > 0.05:
                     sim.fire("udp_delay")
                 return
@@ -186,7 +192,7 @@ def run(scn: Dict[str, Any]) -> UdpRun:
                         foreign[p] = s
                         sim.fire("port_busy")
                         act["ok"] = True
-                    except OSError:
+                    except (OSError, OverflowError):
                         s.close()
                         act["ok"] = False
                 out.actions.append(act)
